@@ -1,15 +1,16 @@
 ------------------------------ MODULE Roller_Scn -----------------------------
 (* Scenario emission for C29: the environment's choices of a Roller behaviour (configured set, preset working ID,
-   per step: accept set, TCP failure, number of concurrent callers) are logged in hist and printed whenever a step
-   has finished.  Run with -simulate (random histories) or exhaustively with MaxSteps = 1. *)
+   per step: accept set, treatment of randomized hellos, TCP failure, number of concurrent callers) are logged in hist
+   and printed whenever a step has finished.  Run with -simulate (random histories) or exhaustively with MaxSteps = 1. *)
 EXTENDS Roller, Json
 VARIABLES hist
 SetToSeq(S) == CHOOSE s \in [1..Cardinality(S) -> S] : \A i, j \in 1..Cardinality(S) : i # j => s[i] # s[j]
-MCInit == Init /\ hist = [configured |-> SetToSeq(configured), preset |-> working, steps |-> << >>]
-MCBegin(acc, tf, n) == BeginStep(acc, tf, n) /\
-   hist' = [hist EXCEPT !.steps = Append(@, [accept |-> SetToSeq(acc), tcpfail |-> tf, n |-> n])]
-\* with a TCP failure the accept set is immaterial: only one representative is emitted
-MCNext == \/ \E acc \in SUBSET IDs : \E tf \in BOOLEAN : \E n \in Callers : (tf => acc = {}) /\ MCBegin(acc, tf, n)
+MCInit == Init /\ hist = [configured |-> SetToSeq({x[1] : x \in configured}), preset |-> working[1], steps |-> << >>]
+MCBegin(acc, rm, tf, n) == BeginStep(acc, rm, tf, n) /\
+   hist' = [hist EXCEPT !.steps = Append(@, [accept |-> SetToSeq(acc), rmode |-> rm, tcpfail |-> tf, n |-> n])]
+\* with a TCP failure the server setting is immaterial: only one representative is emitted
+MCNext == \/ \E acc \in SUBSET (IDs \ RandIDs) : \E rm \in RModes : \E tf \in BOOLEAN : \E n \in Callers :
+               (tf => (acc = {} /\ rm = "refuse")) /\ MCBegin(acc, rm, tf, n)
           \/ (\E c \in Callers : CallerStep(c)) /\ UNCHANGED hist
 Terminal == AllIdle /\ nsteps >= 1
 EmitScn == Terminal => PrintT(<<"SCN", ToJson(hist)>>)
